@@ -116,6 +116,19 @@ def _bounded_job(args):
             'wall_s': round(time.time() - t0, 2)}
 
 
+def file_sha(path):
+    with open(path, 'rb') as f:
+        return hashlib.sha256(f.read()).hexdigest()
+
+
+def canary_pins():
+    try:
+        with open(os.path.join(VERIF, 'canary_pins.json')) as f:
+            return json.load(f)['files']
+    except Exception:
+        return {}
+
+
 def tagged_for(name, prop):
     """Obligation names may end in '@C01,C07': the properties they serve."""
     if '@' not in name:
@@ -196,9 +209,20 @@ def check_property(prop, tier='quick', seed=0):
                 canaries.append((modname, c))
     tasks = R.property_tasks(prop, opts)
     ctasks = []
+    pins = canary_pins()
     for ci, (modname, c) in enumerate(canaries):
         full = os.path.join(REPO, c['file'])
         src = mutate_source(full, c.get('edits') or c['old'], c.get('new'))
+        # canaries test the ENGINE and the CONTRACTS on the source they were
+        # validated on (canary_pins.json: sha256 per file).  On a different
+        # source text a textual mutant may have become equivalent or fall
+        # outside the engine's subset: it is skipped, not held against the
+        # tree being checked.
+        want = pins.get(c['file'])
+        if src is not None and want is not None and file_sha(full) != want:
+            src = None
+            c['_stale'] = 'the source file differs from the version the ' \
+                          'canary was validated on'
         c['_src'] = src
         if src is None:
             continue
@@ -307,8 +331,9 @@ def check_property(prop, tier='quick', seed=0):
         src = c['_src']
         row = {'name': c['name'], 'file': c['file']}
         if src is None:
-            row['status'] = 'stale (pattern not found exactly once; the ' \
-                            'source changed) - skipped'
+            row['status'] = 'stale (%s) - skipped' % c.get(
+                '_stale', 'pattern not found exactly once; the source '
+                'changed')
             canary_rows.append(row)
             continue
         refuted = None
